@@ -17,7 +17,7 @@ def part(ck, sc, tier):
         r = vlib.run_harness([exe, o], timeout=600)
         m = re.search(r"^SUMMARY (\{.*\})$", r.stdout or "", re.M)
         if r.returncode != 0 or not m:
-            if r.returncode in (97, 98, 99, -6, -11) or "Sanitizer" in (r.stderr or ""):
+            if r.returncode in (96, 97, 98, 99, -6, -11) or "Sanitizer" in (r.stderr or ""):
                 ck.violation("crash:reductions", {"what": "sanitizer abort in the reductions / array helpers", "stderr": (r.stderr or "")[-1200:]})
                 continue
             raise Broken("rvec harness failed (%s): %s" % (name, (r.stderr or "")[-800:]))
